@@ -321,8 +321,21 @@ func TestCheck(t *testing.T) {
 	typed := v6util.TypedCodes()
 	isTyped := func(c int) bool { _, ok := typed[c]; return ok }
 	hits := map[int]int{}
-	n := r.Pick(6000, 200000)
+	// committed corpus (accepted entries only are judged)
 	var prev4, prev6 []byte
+	for i, b := range mon.Corpus("v6") {
+		if r.Mine(i) && len(b) <= 3000 {
+			judge(r, "v6", b, prev6, r.Rand("corpus6", i), "")
+			prev6 = b
+		}
+	}
+	for i, b := range mon.Corpus("v4") {
+		if r.Mine(i) && len(b) <= 3000 {
+			judge(r, "v4", b, prev4, r.Rand("corpus4", i), "")
+			prev4 = b
+		}
+	}
+	n := r.Pick(6000, 200000)
 	for i := 0; i < n; i++ {
 		if !r.Mine(i) {
 			continue
